@@ -148,6 +148,43 @@ def separatedBoxes (s : Scene) : Bool :=
     | a :: r => r.all (fun b => a.x1 < b.x0 || b.x1 < a.x0 || a.y1 < b.y0 || b.y1 < a.y0) && go r
   go s.rects
 
+/-- `(x, y, isConn, flags)` sorted by key with the flags of equal keys OR-ed -/
+def orFlags (a : Array (Rat × Rat × Bool × Nat)) : Array (Rat × Rat × Bool × Nat) := Id.run do
+  let s := a.qsort fun p q => vlt p.1 p.2.1 p.2.2.1 q.1 q.2.1 q.2.2.1
+  let mut out : Array (Rat × Rat × Bool × Nat) := #[]
+  for e in s do
+    match out.back? with
+    | some l =>
+      if l.1 == e.1 && l.2.1 == e.2.1 && l.2.2.1 == e.2.2.1 then
+        out := out.pop.push (l.1, l.2.1, l.2.2.1, l.2.2.2 ||| e.2.2.2)
+      else out := out.push e
+    | none => out := out.push e
+  return out
+
+/-- `orthogVisPropFlags`: dumped (`agf`) vs model, per (point, is-connector-end-point), flags of several
+    vertices at one key OR-ed.  Returns the first difference. -/
+def flagsDiff (c : Case) (s : Scene) : Option String := do
+  let xs ← (c.get1 "agx").bind nums?
+  let ys ← (c.get1 "agy").bind nums?
+  let cl ← c.get1 "agc"
+  let fl ← c.get1 "agf"
+  let impl := orFlags ((Array.range xs.size).map fun u => (xs.getD u 0, ys.getD u 0, cl.getD u "0" == "1", nat! (fl.getD u "0")))
+  let model := orFlags (s.flagParts.map fun (g, f) => (g.x, g.y, g.k.isConn, f)).toArray
+  -- every model key must be present with equal flags; dumped keys the model lacks must have no flags
+  let mut j := 0
+  for e in impl do
+    while j < model.size && vlt model[j]!.1 model[j]!.2.1 model[j]!.2.2.1 e.1 e.2.1 e.2.2.1 do
+      if model[j]!.2.2.2 != 0 then
+        return s!"model vertex ({ratToString model[j]!.1},{ratToString model[j]!.2.1}) with flags {model[j]!.2.2.2} is not in the dump"
+      j := j + 1
+    if j < model.size && model[j]!.1 == e.1 && model[j]!.2.1 == e.2.1 && model[j]!.2.2.1 == e.2.2.1 then
+      if model[j]!.2.2.2 != e.2.2.2 then
+        return s!"orthogVisPropFlags at ({ratToString e.1},{ratToString e.2.1}){if e.2.2.1 then "c" else ""}: libavoid {e.2.2.2}, model {model[j]!.2.2.2}"
+      j := j + 1
+    else if e.2.2.2 != 0 then
+      return s!"orthogVisPropFlags at ({ratToString e.1},{ratToString e.2.1}): libavoid {e.2.2.2}, the model has no breakpoint there"
+  none
+
 def modelKeys (s : Scene) : Array EK :=
   (s.graph.map fun (a, b) => mkEK a.x a.y a.k.isConn b.x b.y b.k.isConn).toArray
 
@@ -185,7 +222,19 @@ def checkOrthVis (c : Case) : Option (Bool × String) × List (String × Nat) :=
     | some m =>
       if separatedBoxes s then return (some (false, s!"orthvis: {m}"), stats)
       else return (none, ("orthvis.split-node-at-touching-boxes", 1) :: stats)
-    | none => return (none, stats)
+    | none =>
+      -- the long-range visibility flags (only where the vertex level is sound, i.e. no split vertices)
+      -- a connector end point exactly on a box corner puts a plain dummy vertex and a shape-corner vertex
+      -- at one point of one line; `std::set<PosVertInf>` keeps whichever has the lower heap address
+      -- (`CmpVertInf` falls back to `u < v`), so the *_EDGE bits are not a function of the scene there
+      let onCorner := s.conns.any fun q => !q.d.none && s.rects.any fun r =>
+        (q.x == r.x0 || q.x == r.x1) && (q.y == r.y0 || q.y == r.y1)
+      if onCorner then return (none, ("orthvis.flags-skipped-end-point-on-box-corner", 1) :: stats)
+      match flagsDiff c s with
+      | some m =>
+        if separatedBoxes s then return (some (false, s!"orthvis: {m}"), ("orthvis.flags-compared", 1) :: stats)
+        else return (none, ("orthvis.flags-differ-at-touching-boxes", 1) :: stats)
+      | none => return (none, ("orthvis.flags-compared", 1) :: ("orthvis.flags-equal", 1) :: stats)
   | some e, _ =>
     return (some (false, s!"orthvis: libavoid's graph has edge {e.str}, the model's has not ({impl.size} vs {model.size} edges)"), stats)
   | none, some e =>
